@@ -108,6 +108,21 @@ Theorem C18_eigen_detailed_balance : forall n val Lm Rm pi c,
   forall l i j, (i < n)%nat -> (j < n)%nat -> pi i * P n val Lm Rm l i j = pi j * P n val Lm Rm l j i.
 Proof. exact eigen_detailed_balance. Qed.
 Print Assumptions C18_eigen_detailed_balance.
+(* convergence: when no eigen value is positive, P(t) tends to the part of R L carried by the zero eigen
+   values; with a single zero eigen value, right eigen vector 1 and left eigen vector pi, every row tends to pi *)
+Theorem C18_eigen_converges : forall n val Lm Rm i j,
+  (forall k, (k < n)%nat -> val k <= 0) ->
+  is_lim (fun t => P n val Lm Rm t i j) p_infty
+         (sum n (fun k => if Req_EM_T (val k) 0 then Rm i k * Lm k j else 0)).
+Proof. exact eigen_converges. Qed.
+Print Assumptions C18_eigen_converges.
+
+Theorem C18_eigen_converges_to_stationary : forall n val Lm Rm pi k0 i j,
+  (k0 < n)%nat -> val k0 = 0 -> (forall k, (k < n)%nat -> k <> k0 -> val k < 0) ->
+  Rm i k0 = 1 -> Lm k0 j = pi j ->
+  is_lim (fun t => P n val Lm Rm t i j) p_infty (pi j).
+Proof. exact eigen_converges_to_stationary. Qed.
+Print Assumptions C18_eigen_converges_to_stationary.
 End Reals.
 
 (* ---- the textbook rate matrices (general time reversible family) --------------------------- *)
